@@ -109,6 +109,50 @@ fn main() {
                 println!("{}: {:?}", cfg.name(), r.map_err(|p| format!("PANIC {} at {}", p.msg, p.loc())));
             }
         }
+        Some("probe2") => {
+            // forms the generator does NOT emit: (a) a branch returning a captured value directly,
+            // (b) a loop body listing the same value twice as output
+            use vc_onnxgen::exec::{run_named, Config, TVal};
+            use vc_onnxgen::model::*;
+            let vi = |n: &str| ValueInfo { name: n.into(), dtype: Some(DType::F32), shape: None };
+            let inputs = vec![
+                ("x0".to_string(), TVal::F32 { shape: vec![3], data: vec![1.0, -2.0, 3.0] }),
+                ("sb".to_string(), TVal::I32 { shape: vec![], data: vec![1] }),
+            ];
+            let g_inputs = vec![ValueInfo::new("x0", DType::F32, vec![Dim::Fixed(3)]), ValueInfo::new("sb", DType::Bool, vec![])];
+            let direct = GraphDef { outputs: vec![vi("v")], ..Default::default() };
+            let other = GraphDef { nodes: vec![NodeDef::new("Abs", "n_abs", &["v"], &["e"])], outputs: vec![vi("e")], ..Default::default() };
+            let a = GraphDef {
+                nodes: vec![
+                    NodeDef::new("Neg", "n_neg", &["x0"], &["v"]),
+                    NodeDef::new("If", "if1", &["sb"], &["r1"]).attr("then_branch", Attr::Graph(Box::new(direct))).attr("else_branch", Attr::Graph(Box::new(other))),
+                ],
+                inputs: g_inputs.clone(),
+                outputs: vec![vi("r1")],
+                ..Default::default()
+            };
+            let body = GraphDef {
+                nodes: vec![NodeDef::new("Neg", "n_b", &["c"], &["w"])],
+                inputs: vec![ValueInfo::new("it", DType::I64, vec![]), ValueInfo::new("cin", DType::Bool, vec![]), vi("c")],
+                outputs: vec![ValueInfo { name: "cin".into(), dtype: Some(DType::Bool), shape: None }, vi("w"), vi("w")],
+                ..Default::default()
+            };
+            let b = GraphDef {
+                nodes: vec![NodeDef::new("Loop", "lp", &["m", "", "x0"], &["r1", "r2"]).attr("body", Attr::Graph(Box::new(body)))],
+                initializers: vec![("m".into(), TensorLit::scalar_i64(2))],
+                inputs: g_inputs,
+                outputs: vec![vi("r1"), vi("r2")],
+                ..Default::default()
+            };
+            for (what, g, outs) in [("branch returns capture directly", a, vec!["r1"]), ("duplicate body outputs", b, vec!["r1", "r2"])] {
+                let bytes = ModelDef::new(g).encode();
+                let outs: Vec<String> = outs.iter().map(|s| s.to_string()).collect();
+                for cfg in [Config::Plain, Config::OptInferOn] {
+                    let r = vcore::catch(|| cfg.load(&bytes).and_then(|m| run_named(&m, &inputs, &outs, None, None)));
+                    println!("{what} / {}: {:?}", cfg.name(), r.map_err(|p| format!("PANIC {} at {}", p.msg, p.loc())));
+                }
+            }
+        }
         Some("onnx") => {
             let b = load(&args[2]);
             std::fs::write(format!("{}-cf.onnx", args[3]), b.cf.encode()).unwrap();
